@@ -29,6 +29,9 @@ type C13Data struct {
 	Ties  bool // at least one pair of one-edit neighbours with equal counts in a sample was planted
 	Depth int  // longest planted chain of successive variants
 	Star  int  // largest number of variants planted on one sequence
+	// Stale: the records already carry obiclean annotations (the file is the result of an earlier
+	// run, on these or on other data): they are results of the command, not data
+	Stale bool
 }
 
 // C13Opts steers C13Random.
@@ -280,8 +283,25 @@ func (d C13Data) Fasta() []byte {
 			total += c
 		}
 		sort.Strings(keys)
+		stale := ""
+		if d.Stale {
+			st := make([]string, len(keys))
+			wt := make([]string, len(keys))
+			for i, k := range keys {
+				st[i] = fmt.Sprintf("\"%s\":\"%c\"", k, "his"[(len(s.Id)+i+total)%3])
+				wt[i] = fmt.Sprintf("\"%s\":%d", k, 1+(total*7+i)%90)
+			}
+			stale = fmt.Sprintf(",\"obiclean_status\":{%s},\"obiclean_weight\":{%s},\"obiclean_mutation\":{\"ghost\":\"(a)->(c)@1\"},\"obiclean_head\":%v,\"obiclean_headcount\":%d",
+				strings.Join(st, ","), strings.Join(wt, ","), total%2 == 0, total%3)
+		}
 		if d.Attr {
-			fmt.Fprintf(&b, ">%s {\"count\":%d,\"%s\":\"%s\"}\n", s.Id, total, d.Tag, keys[0])
+			fmt.Fprintf(&b, ">%s {\"count\":%d,\"%s\":\"%s\"%s}\n", s.Id, total, d.Tag, keys[0], stale)
+		} else if d.Stale {
+			parts := make([]string, len(keys))
+			for i, k := range keys {
+				parts[i] = fmt.Sprintf("\"%s\":%d", k, s.Counts[k])
+			}
+			fmt.Fprintf(&b, ">%s {\"count\":%d,\"merged_%s\":{%s}%s}\n", s.Id, total, d.Tag, strings.Join(parts, ","), stale)
 		} else {
 			parts := make([]string, len(keys))
 			for i, k := range keys {
